@@ -42,13 +42,19 @@ func init() {
 
 // countingSigner wraps a crypto.Signer and counts uses.
 type countingSigner struct {
-	inner crypto.Signer
-	n     int
+	inner  crypto.Signer
+	n      int
+	failAt int // the failAt-th signing call fails once (HSM hiccup); 0 = never
+	failed bool
 }
 
 func (s *countingSigner) Public() crypto.PublicKey { return s.inner.Public() }
 func (s *countingSigner) Sign(r io.Reader, d []byte, o crypto.SignerOpts) ([]byte, error) {
 	s.n++
+	if s.failAt != 0 && s.n == s.failAt {
+		s.failed = true
+		return nil, errors.New("injected: signer temporarily unavailable")
+	}
 	return s.inner.Sign(r, d, o)
 }
 
@@ -153,6 +159,9 @@ func c06Run(c *core.Ctx, k c06Case) {
 	var cs *countingSigner
 	if k.signer {
 		cs = &countingSigner{inner: idpKP.Key}
+		if c.Rng.Intn(5) == 0 { // one of the two signing calls of this response fails: either nothing is emitted, or what is emitted is complete
+			cs.failAt = 1 + c.Rng.Intn(2)
+		}
 		w.IDP.Key = nil
 		w.IDP.Signer = cs
 	}
@@ -313,6 +322,11 @@ func c06Run(c *core.Ctx, k c06Case) {
 			c.Count("nothing_emitted_for_endpoint_without_post_binding")
 			return
 		}
+		if cs != nil && cs.failed {
+			c.Nontrivial(k.String())
+			c.Count("nothing_emitted_after_signer_failure")
+			return
+		}
 		c.Inconclusive(fmt.Sprintf("no SAMLResponse emitted (status %d)", rec.Code))
 		return
 	}
@@ -458,7 +472,7 @@ func c06Run(c *core.Ctx, k c06Case) {
 	if strings.Contains(string(em.ResponseXML), "⟨B.") || strings.Contains(string(body), "⟨B.") {
 		bad("other-session-leak", "a string of the other session appears in the reply")
 	}
-	if cs != nil && cs.n < 2 {
+	if cs != nil && cs.failAt == 0 && cs.n < 2 {
 		bad("external-signer-unused", fmt.Sprintf("external signer used %d times for two signatures", cs.n))
 	}
 	c.Count("responses_judged")
